@@ -320,7 +320,8 @@ func (u *UntrustedInputChecker) OnVisitNodeLeave(n ExprNode) {
 	case *IndexAccessNode:
 		if lit, ok := n.Index.(*StringNode); ok {
 			// Special case like github['event']['issue']['title']
-			u.onPropAccess(lit.Value)
+			// Property names are case insensitive: github.event['Issue'] is github.event.issue
+			u.onPropAccess(strings.ToLower(lit.Value))
 			break
 		}
 		u.onIndexAccess()
